@@ -7,6 +7,7 @@
 #include <unistd.h>
 #include <fcntl.h>
 #include <dirent.h>
+#include <signal.h>
 #include <sys/mman.h>
 #include <sys/stat.h>
 
@@ -804,6 +805,7 @@ void slicer_run(lzma_stream *strm, const uint8_t *in, size_t in_size,
 // harness main helper //
 /////////////////////////
 
+void hx_set_case_watchdog(unsigned seconds);
 static hx_args g_args;
 static int progress_fd = -1;
 static uint64_t n_eval, n_viol, n_samples;
@@ -839,6 +841,10 @@ void hx_parse(int argc, char **argv, hx_args *a)
 	const char *hf = getenv("VERIF_HASHFILE");
 	if (hf && *hf) hashfile = fopen(hf, "ab");
 	setvbuf(stdout, NULL, _IOLBF, 0);
+	// every engine gets a per-case wall-clock watchdog (exit code 87): a coder that loops forever inside
+	// lzma_code() must not hang the check. VERIF_CASE_WATCHDOG=<seconds> overrides, 0 disables.
+	const char *wd = getenv("VERIF_CASE_WATCHDOG");
+	hx_set_case_watchdog(wd && *wd ? (unsigned)strtoul(wd, NULL, 10) : (a->only >= 0 ? 150 : 60));
 }
 
 bool hx_next_case(const hx_args *a, uint64_t *idx)
@@ -867,9 +873,25 @@ static void case_time_close(void)
 	if (d > slow_s) { slow_s = d; slow_idx = case_prev; }
 }
 
+static unsigned case_watchdog_s;
+static void on_alarm(int sig)
+{
+	(void)sig;
+	static const char msg[] = "HX-WATCHDOG: the current case exceeded its wall-clock budget\n";
+	if (write(2, msg, sizeof(msg) - 1) < 0) {}
+	_exit(87);
+}
+
+void hx_set_case_watchdog(unsigned seconds)
+{
+	case_watchdog_s = seconds;
+	if (seconds) signal(SIGALRM, on_alarm);
+}
+
 void hx_case_begin(uint64_t idx)
 {
 	case_time_close();
+	if (case_watchdog_s) alarm(case_watchdog_s);
 	case_prev = idx; case_t0 = wall_now();
 	if (progress_fd >= 0) {
 		char b[32]; int n = snprintf(b, sizeof(b), "%20" PRIu64 "\n", idx);
